@@ -425,6 +425,27 @@ Proof.
       exists H, (GOwn a p v), []. split; [reflexivity|left; reflexivity].
 Qed.
 
+Lemma reach_is_run disable H st outs : reach disable H st outs -> gossip_run disable ninit H = (st, outs).
+Proof.
+  induction 1 as [|H st outs m R IH]; [reflexivity|].
+  rewrite gossip_run_app, IH. cbn [P2PVerify.gossip_run]. destruct (gossip_step disable st m) as [st1 o1]. reflexivity.
+Qed.
+
+(* [justified] with the set in force expressed through gossip_run *)
+Definition justified_run (disable : bool) (H : list gmsg) (a : gaddr) (p : peerid) (v : hbv) : Prop :=
+  exists pre m post, H = pre ++ m :: post /\
+    (m = GOwn a p v \/
+     exists eaddr sig gs, m = GHeartbeat p eaddr (hv_payload v) sig /\ n_gs (fst (gossip_run disable ninit pre)) = Some gs /\
+       decode_hb (hv_payload v) = Some (hv_ts v) /\
+       if disable then 32 < Z.of_nat (length (p2p_hb_preimage (hv_payload v))) /\ prec (keccak (p2p_hb_preimage (hv_payload v))) sig = Some a
+       else hb_valid gs eaddr (hv_payload v) sig a).
+
+Lemma justified_to_run disable H a p v : justified disable H a p v -> justified_run disable H a p v.
+Proof.
+  intros (pre & m & post & E & [J|(eaddr & sig & st0 & o0 & gs & H1 & H2 & H3 & H4)]); exists pre, m, post; (split; [exact E|]); [left; exact J|].
+  right. exists eaddr, sig, gs. apply reach_is_run in H2. rewrite H2. cbn [fst]. auto.
+Qed.
+
 (* the table bound, for every history *)
 Theorem table_bound disable ms a row :
   tl_get a (n_tbl (fst (gossip_run disable ninit ms))) = Some row -> Z.of_nat (length row) <= gst_max_nodes.
@@ -439,6 +460,10 @@ Proof.
   intros Hg Hp. destruct (reach_inv _ _ _ _ (reach_run disable ms)) as [_ J].
   apply tl_get_In in Hg. apply tl_get_In in Hp. exact (J _ _ _ _ Hg Hp).
 Qed.
+
+Theorem table_provenance_run disable ms a row p v :
+  tl_get a (n_tbl (fst (gossip_run disable ninit ms))) = Some row -> tl_get p row = Some v -> justified_run disable ms a p v.
+Proof. intros Hg Hp. apply justified_to_run. eapply table_provenance; eassumption. Qed.
 
 (* every request forwarded to the chain watchers was validly signed by a member of the set in force at that moment *)
 Theorem forwarded_request_valid disable H st outs : reach disable H st outs ->
@@ -467,5 +492,14 @@ Proof.
     + destruct Hin.
     + destruct Hin.
     + destruct (set_heartbeat _ _ _ _); cbn [snd] in Hin; [destruct Hin|destruct Hin as [E|[]]; discriminate].
+Qed.
+
+Theorem forwarded_request_valid_run disable ms i os r :
+  nth_error (snd (gossip_run disable ninit ms)) i = Some os -> In (FwdReq r) os ->
+  exists eaddr sig gs a, nth_error ms i = Some (GObsReq eaddr r sig) /\ n_gs (fst (gossip_run disable ninit (firstn i ms))) = Some gs /\
+                         req_valid gs eaddr r sig a /\ decode_req r = true.
+Proof.
+  intros Hn Hin. destruct (forwarded_request_valid _ _ _ _ (reach_run disable ms) _ _ _ Hn Hin) as (eaddr & sig & st0 & o0 & gs & a & H1 & H2 & H3 & H4 & H5).
+  exists eaddr, sig, gs, a. apply reach_is_run in H2. rewrite H2. cbn [fst]. auto.
 Qed.
 End V.
